@@ -41,7 +41,7 @@ func localNames(fn *ssa.Function) []string {
 			case *ssa.Phi:
 				add(x.Comment)
 			case *ssa.DebugRef:
-				if id, ok := x.Expr.(*ast.Ident); ok {
+				if id, ok := x.Expr.(*ast.Ident); ok && isLocalVar(x) {
 					add(id.Name)
 				}
 			}
